@@ -362,11 +362,8 @@ def build (e : Env) (a : BuildArgs) : R Url := do
         else pure [] : R Str)
       let path0 := if a.path.isEmpty then a.path else q e Gen.PATH_QUOTER a.path
       let path ← (if !path0.isEmpty && !netloc.isEmpty then
-          let p1 := if mem 46 path0 then normalizePath path0 else path0
-          -- `path[0]` on the normalised path: an empty result raises IndexError
-          match p1 with
-          | [] => .error .indexError
-          | 47 :: _ => pure p1
+          match path0 with
+          | 47 :: _ => pure (if mem 46 path0 then normalizePath path0 else path0)
           | _ => .error .valueError
         else pure path0 : R Str)
       let query := if !qargTruthy a.query && !queryString.isEmpty then q e Gen.QUERY_QUOTER queryString else queryString
